@@ -226,15 +226,20 @@ class Effects:
 
     def _owner(self, tm, eng: Engine) -> t.Optional[t.Tuple[str, str]]:
         """(class, attribute) of the package object attribute a container expression belongs to"""
-        best = None
-        for s in subterms(tm):
-            if s[0] == "attr":
-                ty = eng.typer.type_of(s[1])
-                if ty and ty[0] == "cls" and ty[1] in self.prog.classes:
-                    if self.prog.lookup_method(ty[1], s[2]) is None:
-                        best = (ty[1], s[2])
-                        break
-        return best
+        # walk the access chain of the container expression only (x.attr[k1][k2], x.attr.method-receiver ...);
+        # keys and arguments may mention other state without being it
+        cur = tm
+        while True:
+            if cur[0] == "attr":
+                ty = eng.typer.type_of(cur[1])
+                if ty and ty[0] == "cls" and ty[1] in self.prog.classes and self.prog.lookup_method(ty[1], cur[2]) is None:
+                    return (ty[1], cur[2])
+                cur = cur[1]
+                continue
+            if cur[0] in ("item", "slice"):
+                cur = cur[1]
+                continue
+            return None
 
     # ------------------------------------------------------------------ expansion
     def collect(self, fi: FuncInfo, recv: t.Optional[str] = None, args=None, kwargs=None, recv_term=None,
